@@ -1075,8 +1075,14 @@ func (ps *pathState) caseMap(v value, upper bool) value {
 			}
 			in := ts.And(ts.BvCmp(OpBvUle, ts.BV(lo, 8), b.t), ts.BvCmp(OpBvUle, b.t, ts.BV(hi, 8)))
 			out[i] = mkval(types.Uint8, ts.Ite(in, ts.BvBin(OpBvAdd, b.t, ts.BV(d, 8)), b.t))
+		case ffElem:
+			// a text in 'f' format has no letter: case mapping leaves it unchanged
+			if b.f != 'f' {
+				panic(pathEnd{StUnsupported, "case mapping of float text in exponent format"})
+			}
+			out[i] = b
 		default:
-			panic(pathEnd{StUnsupported, "case mapping of float text"})
+			panic(pathEnd{StUnsupported, "case mapping of " + fmt.Sprintf("%T", x)})
 		}
 	}
 	return normStr(out)
